@@ -17,4 +17,5 @@ func registerAll() {
 	core.Register("C04", execC04)
 	core.Register("C05", execC05)
 	core.Register("C10", execC10)
+	core.Register("C11", execC11)
 }
